@@ -81,6 +81,7 @@ REAL_DECL(int, clock_gettime, clockid_t, struct timespec *)
 REAL_DECL(int, gettimeofday, struct timeval *, void *)
 REAL_DECL(time_t, time, time_t *)
 REAL_DECL(ssize_t, write, int, const void *, size_t)
+REAL_DECL(ssize_t, read, int, void *, size_t)
 REAL_DECL(int, eventfd_write, int, eventfd_t)
 REAL_DECL(int, open64, const char *, int, ...)
 REAL_DECL(int, open, const char *, int, ...)
@@ -136,6 +137,7 @@ static void resolve_real()
     R(gettimeofday);
     R(time);
     R(write);
+    R(read);
     R(eventfd_write);
     R(open64);
     R(open);
@@ -858,6 +860,21 @@ static void clock_yield_point()
     reschedule("clock-read");
 }
 
+// File sinks read and write their files in the middle of rotations and compressions: a decision point after
+// such a call lets another thread run between "data is in the buffer" and "data is used".  Only for
+// descriptors of tracked log files (QFile uses plain read/write, no stdio lock is held around them).
+static uint64_t g_io_calls = 0;
+static void io_yield_point()
+{
+    if (!S || S->cfg.io_yield_pct <= 0)
+        return;
+    uint64_t h = S->cfg.seed ^ (0x10F11E5ull + g_io_calls++);
+    if ((int)(splitmix64(h) % 100) >= S->cfg.io_yield_pct)
+        return;
+    count(C_YIELD_IO);
+    reschedule("file-io");
+}
+
 bool active()
 {
     return g_active;
@@ -900,6 +917,7 @@ void begin(const SchedConfig &cfg)
     S->n_change = 0;
     S->busy_adv_total = 0;
     g_clock_reads = 0;
+    g_io_calls = 0;
     if (cfg.strategy == S_PCT) {
         S->n_change = cfg.pct_depth > 8 ? 8 : cfg.pct_depth;
         for (int i = 0; i < S->n_change; i++)
@@ -1609,11 +1627,22 @@ ssize_t write(int fd, const void *buf, size_t n)
                 ev(EV_FS_WRITE, fd, r, ord, rel, strlen(rel));
             boundary(FS_WRITE, "write", rel, nullptr, ord, false, buf, (size_t)r, fd, 0);
         }
+        if (managed())
+            io_yield_point();
     } else {
         r = real_write(fd, buf, n);
     }
     if (managed())
         wake_pollers();
+    return r;
+}
+
+ssize_t read(int fd, void *buf, size_t n)
+{
+    ENSURE_REAL();
+    ssize_t r = real_read(fd, buf, n);
+    if (F.armed && fd >= 0 && fd < FsState::MAXFD && F.fdpath[fd] && managed())
+        io_yield_point();
     return r;
 }
 
